@@ -174,6 +174,25 @@ def enumerate_small() -> Iterator[Any]:
             yield ["seq", seq]
 
 
+def enumerate_terminal_forks() -> Iterator[Any]:
+    """a fork that ends the job, one of whose branches ends in another fork: A; op1{ P; op2{C | D} | Q[;R] [| S[;T]] }
+    for every pair of operators, 2-3 outer branches, the nested branch first or last (which branch the writer visits
+    first depends on names and hash seed) — every path ends inside the nested blocks, where the writer places its
+    detach nodes and the enclosing terminators"""
+    import itertools
+    for op1, op2, nb, swap, tailev in itertools.product(("AND", "OR", "XOR"), ("AND", "OR", "XOR"), (2, 3), (0, 1), (0, 1)):
+        ng = NameGen()
+
+        def E() -> Any:
+            return ["ev", ng.fresh()]
+        a = E()
+        inner = ["fork", op2, [["seq", [E()]], ["seq", [E()]]]]
+        brs = [["seq", [E(), inner]]] + [["seq", [E()] + ([E()] if tailev else [])] for _ in range(nb - 1)]
+        if swap:
+            brs.reverse()
+        yield ["seq", [a, ["fork", op1, brs]]]
+
+
 def enumerate_bare_breaks() -> Iterator[Any]:
     """F-adjacent definitions (outside F's grammar: a loop directly followed by a fork, a break branch without an
     event of its own): an outer loop whose body holds a nested loop and then a choice between leaving the outer loop
@@ -416,8 +435,25 @@ def handle(req):
             except BaseException as ex:
                 out.append({"error": f"{type(ex).__name__}: {str(ex)[:200]}"})
         return {"results": out}
+    if op == "cover":
+        # utils.get_weighted_cover on a batch of (event sets, universe); None / the cover as sorted lists
+        from tel2puml.utils import get_weighted_cover
+        out = []
+        for sets, uni in req["inputs"]:
+            try:
+                r = get_weighted_cover({frozenset(x) for x in sets}, frozenset(uni))
+                out.append(None if r is None else sorted(sorted(x) for x in r))
+            except BaseException as ex:
+                out.append({"error": f"{type(ex).__name__}: {str(ex)[:120]}"})
+        return {"results": out}
     if op == "ingest":
-        events = update_and_create_events_from_clustered_pvevents(req["jobs"], add_dummy_start=True)
+        if "flat" in req:
+            # one flat stream of events, jobs interleaved: clustered by the project's own cluster_events_by_job_id
+            from tel2puml.pv_to_puml.data_ingestion import cluster_events_by_job_id
+            jobs = list(cluster_events_by_job_id(req["flat"]).values())
+        else:
+            jobs = req["jobs"]
+        events = update_and_create_events_from_clustered_pvevents(jobs, add_dummy_start=True)
         return {"model": dump_model(events), "file": events_to_raw_input(events)}
     if op == "loops":
         events = update_and_create_events_from_clustered_pvevents(req["jobs"], add_dummy_start=True)
